@@ -130,6 +130,9 @@ def _case():
         "rkh_slot": st.integers(0, 3), "other_roots": st.lists(st.integers(0, 7), max_size=3),
         "negatives": st.lists(st.tuples(st.sampled_from(["bit", "byte", "trunc"]), st.integers(0, 1 << 30), st.integers(1, 255)), max_size=4),
         "wrong_kek": st.binary(min_size=32, max_size=32),
+        # history: after the first export one command is replaced / appended / a LOAD gets new data, then the image is exported again
+        "mutate": st.one_of(st.none(), st.fixed_dictionaries({"how": st.sampled_from(["setitem", "append", "load_data"]), "section": st.integers(0, 2),
+                                                               "index": st.integers(0, 5), "cmd": _command(), "data": _load_data()})),
     })
 
 
@@ -418,6 +421,62 @@ def run_case(case, o: Oracle) -> None:
             [p2.header.product_version.nums[i] for i in range(3)] == [int("%d" % n, 16) for n in product]
         if not same:
             o.fail("negative", "different_content:%s" % kind, "corruption %r at %d returned other content instead of an error" % (kind, pos))
+    _second_export(case, o, img, sections, exp_sections, kek, padding, fmt)
+
+
+def _second_export(case, o: Oracle, img, sections, exp_sections, kek, padding, fmt) -> None:
+    """History step: change the built image after its first export and export it again."""
+    from spsdk.sbfile.sb2.commands import CmdLoad
+
+    import copy
+
+    mut = case.get("mutate")
+    if not mut:
+        return
+    case = copy.deepcopy(case)  # the generated case itself stays as drawn (it is what a replay file stores)
+    si = mut["section"] % len(sections)
+    sec = sections[si]
+    how = mut["how"]
+    with o.spsdk("history", how):
+        if how == "append":
+            sec.append(build_command(mut["cmd"]))
+            exp_sections[si]["commands"].append(expected(mut["cmd"]))
+            case["sections"][si]["commands"].append(mut["cmd"])
+        elif how == "setitem":
+            ci = mut["index"] % len(sec)
+            sec[ci] = build_command(mut["cmd"])
+            exp_sections[si]["commands"][ci] = expected(mut["cmd"])
+            case["sections"][si]["commands"][ci] = mut["cmd"]
+        else:
+            loads = [i for i, c in enumerate(case["sections"][si]["commands"]) if c["c"] == "load"]
+            if not loads:
+                return
+            ci = loads[mut["index"] % len(loads)]
+            if not isinstance(sec[ci], CmdLoad):
+                return
+            sec[ci].data = bytes(mut["data"])
+            newc = dict(case["sections"][si]["commands"][ci], data=bytes(mut["data"]))
+            case["sections"][si]["commands"][ci] = newc
+            exp_sections[si]["commands"][ci] = expected(newc)
+    o.label("history:" + how)
+    data2 = None
+    with o.spsdk("export_again"):
+        data2 = img.export(padding=padding)
+    if data2 is None:
+        return
+    o.artifact("file_after_change", data2)
+    try:
+        model = sb2_rom.load(data2, kek)
+    except sb2_rom.Reject as exc:
+        o.fail("rom_accepts_again", "reject", "after %s: %s" % (how, exc))
+        return
+    _compare_sections("rom_content_again", model["sections"], exp_sections, case, o)
+    o.eq("header_again", "image_blocks", model["header"]["image_blocks"] * 16, len(data2) if fmt != "2.0s" else len(data2) - len(model["signature"]))
+    with o.spsdk("parse_again"):
+        from spsdk.sbfile.sb2.images import BootImageV20, BootImageV21
+
+        p2 = BootImageV21.parse(data2, kek=kek) if fmt == "2.1" else BootImageV20.parse(data2, kek=kek)
+        _compare_sections("parse_content_again", _sections_of(p2), exp_sections, case, o)
 
 
 def _norm(sections):
